@@ -863,6 +863,11 @@ class MemorizedFunc(Logger):
         """
         call_id = (self.func_id, self._get_args_id(*args, **kwargs))
 
+        # The result is about to be stored: make sure that the code recorded
+        # in the cache is the code that computes it (results of a previous
+        # version of the function are wiped).
+        self._check_previous_func_code(stacklevel=3)
+
         # Return the output and the metadata
         return self._call(call_id, args, kwargs)
 
